@@ -39,7 +39,9 @@ class Contract:
                  modifies=None, calls=None, globals=None, props=(), yields=None, is_property=False, cls=None,
                  local_types=None, axioms=(), spec_env=None, pre_raises=None, lemmas=None, frame_objects=("self",),
                  raise_post=None, notes="", truthy_of=None, structural_eq=False, raises_type=None, trusted=False,
-                 drop_decorators=(), strict_sorts=True, cases=None, lets=None, concrete_env=None, no_monitor=False, flat=None, defs=None):
+                 drop_decorators=(), strict_sorts=True, cases=None, lets=None, concrete_env=None, no_monitor=False, flat=None, defs=None, keyed=None, strict_lookup=False):
+        self.strict_lookup = strict_lookup
+        self.keyed = dict(keyed or {})
         self.defs = dict(defs or {})
         self.flat = dict(flat or {})
         self.concrete_env = dict(concrete_env or {})
